@@ -256,7 +256,7 @@ def checkCase (c : Case) : CaseResult := Id.run do
     [("nodes", n0.size), ("edges", e0.size), ("seppairs", seps.size), ("bends", bends), (nb, 1),
      ("opt.aca." ++ o[0]!, 1), ("opt.nearalign." ++ o[1]!, 1), ("opt.aspect." ++ o[5]!, 1), ("opt.growth." ++ (o[7]?.getD "1"), 1),
      (if isTree then "shape.tree" else "shape.cyclic", 1),
-     (if maxDeg ≥ 5 then "maxdeg.5+" else "maxdeg.le4", 1), (bucket "maxdeg" maxDeg, 1),
+     (if maxDeg ≥ 5 then "maxdeg.5+" else "maxdeg.le4", 1), (bucket "degmax" maxDeg, 1),
      (bucket "maxindeg" maxIn, 1), (bucket "maxoutdeg" maxOut, 1),
      ("pos." ++ (((c.get1 "pos").bind (·[0]?)).getD "?"), 1), ("size." ++ (((c.get1 "size").bind (·[0]?)).getD "?"), 1)] ++ crowd
   -- tie of the final-segment limit rule
